@@ -261,6 +261,9 @@ func (w *World) structSort(name string, st *types.Struct, gt types.Type) *Sort {
 		f := st.Field(i)
 		fs := w.sortOf(f.Type())
 		acc := name + "_f_" + f.Name()
+		if f.Name() == "_" || f.Name() == "" {
+			acc = fmt.Sprintf("%s_f_blank%d", name, i)
+		}
 		fis = append(fis, fieldInfo{f.Name(), acc, fs, f.Type()})
 		parts = append(parts, fmt.Sprintf("(%s %s)", q(acc), fs.Name))
 	}
@@ -455,7 +458,7 @@ func isSentinelError(pkgPath, name string, t types.Type) bool {
 
 func (w *World) sentinelTerm(pkgPath, name string) Term {
 	h := fnv32(pkgPath + "." + name)
-	return Term{fmt.Sprintf("(mk-iface (- %d) %d)", h, h), &Sort{Name: "Iface", Kind: KIface, Go: types.Universe.Lookup("error").Type()}}
+	return Term{fmt.Sprintf("(mk-iface %d %d)", 2000000000+int64(h), h), &Sort{Name: "Iface", Kind: KIface, Go: types.Universe.Lookup("error").Type()}}
 }
 
 func fnv32(s string) uint32 {
